@@ -1,4 +1,4 @@
-(* Model of pipefunc/sweep.py (after the two `fix:` commits of branch c17): Sweep.generate / list / __len__ /
+(* Model of pipefunc/sweep.py (with the `fix:` commits for C17 applied): Sweep.generate / list / __len__ /
    product / filtered_sweep / add_derivers, MultiSweep (generate, __len__, filtered_sweep, +, combine),
    _combined_exclude, _combine_dicts, _check_dim_lengths and the counting loop of count_sweep.
    Definitions only (proofs are in Proofs/SweepFacts.v).
@@ -203,12 +203,19 @@ Definition product_step (acc : dict (list val) * option (list dimg)) (o : sweep)
    | Some d => Some (d ++ match dims o with Some od => od | None => map DStr (dkeys (items o)) end)
    end).
 
-Definition product (s : sweep) (others : list sweep) : result sweep :=
+Definition no_items (o : sweep) : bool := match items o with [] => true | _ :: _ => false end.
+
+(* the part of product after the emptiness test *)
+Definition product_body (s : sweep) (others : list sweep) : result sweep :=
   let (it, dm) := fold_left product_step others (items s, dims s) in
   let ex := combined_exclude (map excl (s :: others)) in
   do k <- combine_dicts (map consts (s :: others));
   do d <- combine_dicts (map ders (s :: others));
   Ok {| items := it; dims := dm; excl := ex; consts := k; ders := d |}.
+
+(* `if not self.items or any(not o.items for o in others): return Sweep({})` *)
+Definition product (s : sweep) (others : list sweep) : result sweep :=
+  if existsb no_items (s :: others) then Ok empty_sweep else product_body s others.
 
 (* add_derivers( **derivers ) : replaces the derivers *)
 Definition add_derivers (s : sweep) (d : dict deriver) : sweep :=
@@ -275,8 +282,14 @@ Definition filtered (s : sweep) (keys : list str) : result sweep :=
             excl := None; consts := None; ders := None |}
   | None =>
       if negb (existsb (dhas (items s)) keys) then Ok empty_sweep
-      else Ok {| items := items s; dims := Some (filtered_dims s keys);
-                 excl := excl s; consts := consts s; ders := None |}
+      else
+        let f := {| items := items s; dims := Some (filtered_dims s keys);
+                    excl := excl s; consts := consts s; ders := None |} in
+        match excl s with
+        | None =>   (* `if self.exclude is None and len(self) == 0: return Sweep({})` *)
+            do n <- len s; if n =? 0 then Ok empty_sweep else Ok f
+        | Some _ => Ok f
+        end
   end.
 
 (* ---------- MultiSweep ---------- *)
